@@ -10,142 +10,34 @@ From WP Require iovec.Pipe iovec.PipeProofs2.
 Import ListNotations.
 Open Scope N_scope.
 
-Definition drained_clean (g : giov) : Prop := gslices g = [] -> ganchors g = [].
-
-Lemma pipe_push_nonempty merged bs (s : Pipe.st) : bs <> [] -> Pipe.slices (Pipe.push merged bs s) <> [].
-Proof.
-  intros Hne. unfold Pipe.push. destruct bs as [|b0 bs0]; [congruence|]. cbn [Pipe.slices].
-  pose proof (PipeProofs2.push_raw_length merged (Pipe.plain (b0 :: bs0)) (Pipe.slices s)) as (_ & H1).
-  intros Hnil. rewrite Hnil in H1. cbn in H1. lia.
-Qed.
-
-Lemma related_nonempty h g s : R h g s -> Pipe.slices s <> [] -> gslices g <> [].
-Proof.
-  intros Rs Hne Hnil. pose proof (R_lengths _ _ _ Rs) as HL. rewrite Hnil in HL. destruct (Pipe.slices s); [congruence|discriminate].
-Qed.
-
-Lemma gd_consume_clean c g g' k : gd_consume c g = Some (g', k) -> drained_clean g'.
+Lemma gd_consume_clean c g g' k : gd_consume c g = Some (g', k) -> gslices g' = [] -> ganchors g' = [].
 Proof.
   unfold gd_consume. destruct (drain _ (ganchors g)) as [an|]; [|discriminate].
   destruct (Bool.eqb (is_nil (nskipn (N.min c (nlen (gslices g))) (gslices g))) (is_nil (drop_zero an))) eqn:Eq; cbn [negb]; [|discriminate].
-  intros E. inversion E; subst g' k. unfold drained_clean. cbn [gslices ganchors]. intros Hnil.
+  intros E. inversion E; subst g' k. cbn [gslices ganchors]. intros Hnil.
   rewrite Hnil in Eq. cbn [is_nil] in Eq. apply Bool.eqb_prop in Eq. destruct (drop_zero an); [reflexivity|discriminate].
 Qed.
 
-Lemma cbb_clean : forall fuel c g g', drained_clean g -> consume_by_bytes fuel c g = Some g' -> drained_clean g'.
-Proof.
-  induction fuel as [|fuel IH]; intros c g g' J E; cbn [consume_by_bytes] in E.
-  - destruct (c =? 0); [|discriminate]. now inversion E; subst.
-  - destruct (c =? 0); [now inversion E; subst|].
-    destruct (gslices g) as [|s0 t] eqn:Esl; [discriminate|].
-    destruct (N.min c (sl_len s0) =? sl_len s0).
-    + destruct (gd_consume 1 g) as [[g1 k1]|] eqn:EG; [|discriminate].
-      eapply IH; [eapply gd_consume_clean; exact EG|exact E].
-    + inversion E; subst g'. unfold drained_clean. cbn [gslices]. discriminate.
-Qed.
-
-Lemma advance_clean n g g' k : drained_clean g -> advance_slices n g = Some (g', k) -> drained_clean g'.
-Proof.
-  intros J. unfold advance_slices. destruct (stable_slices g) as [st|]; [|discriminate].
-  match goal with |- context [consume_by_bytes ?f ?c g] => destruct (consume_by_bytes f c g) as [gx|] eqn:EC; [|discriminate] end.
-  intros E. inversion E; subst gx. eapply cbb_clean; eauto.
-Qed.
-
-Lemma read_loop_clean h : forall fuel n g acc g' out, drained_clean g -> read_loop fuel h n g acc = Some (g', out) -> drained_clean g'.
-Proof.
-  induction fuel as [|fuel IH]; intros n g acc g' out J E; cbn [read_loop] in E.
-  - destruct (n =? 0); inversion E; now subst.
-  - destruct (n =? 0); [inversion E; now subst|].
-    destruct (stable_slices g) as [[|s0 rest]|]; [inversion E; now subst| |discriminate].
-    destruct (advance_slices (N.min (sl_len s0) n) g) as [[g1 k1]|] eqn:EA; [|discriminate].
-    eapply IH; [eapply advance_clean; eauto|exact E].
-Qed.
-
-(* producers leave a slice behind (or change nothing) *)
-Lemma produced_clean g (s : Pipe.st) h' g' bs merged :
-  drained_clean g -> R h' g' (Pipe.push merged bs s) -> (bs = [] -> g' = g) -> drained_clean g'.
-Proof.
-  intros J R' Hnil. destruct bs as [|b0 bs0] eqn:Eb; [rewrite (Hnil eq_refl); exact J|].
-  intros Hsl. exfalso. revert Hsl. eapply related_nonempty; [exact R'|]. apply pipe_push_nonempty. discriminate.
-Qed.
-
-Theorem g1step_clean h g o h' g' x : GInv h g -> drained_clean g -> g1step h g o = Some (h', g', x) -> drained_clean g'.
-Proof.
-  intros I J E. pose proof (R_pipe_of h g) as Rs.
-  destruct o as [bs|bs|bs|items|bs|p|b src|k|k| |k| | |k|bs count]; cbn [g1step] in E.
-  - destruct (push h (SExt bs) g) as [[h1 g1]|] eqn:EP; [|discriminate]. inversion E; subst h1 g1 x.
-    destruct (push_refines _ _ _ _ _ _ I Rs EP) as (_ & m & R'). eapply produced_clean; eauto.
-    intros ->. cbn in EP. now inversion EP.
-  - destruct (push_copy h bs g) as [[h1 g1]|] eqn:EP; [|discriminate]. inversion E; subst h1 g1 x.
-    destruct (push_copy_refines _ _ _ _ _ _ I Rs EP) as (_ & m & R'). eapply produced_clean; eauto.
-    intros ->. cbn in EP. now inversion EP.
-  - destruct (push_borrowed (SExt bs) g) as [g1|] eqn:EP; [|discriminate]. inversion E; subst h' g1 x.
-    destruct (push_borrowed_refines _ _ _ _ _ I Rs EP) as (_ & m & R'). eapply produced_clean; eauto.
-    intros ->. cbn in EP. now inversion EP.
-  - destruct (extend (map SExt items) g) as [g1|] eqn:EP; [|discriminate]. inversion E; subst h' g1 x. clear E.
-    revert g I J Rs EP. induction items as [|bs items IH]; intros g I J Rs EP; cbn [map extend] in EP; [inversion EP; now subst|].
-    destruct (push_borrowed (SExt bs) g) as [g1|] eqn:EB; [|discriminate].
-    destruct (push_borrowed_refines _ _ _ _ _ I Rs EB) as (I1 & m & R1).
-    apply (IH g1 I1); [|apply R_pipe_of|exact EP].
-    eapply produced_clean; eauto. intros ->. cbn in EB. now inversion EB.
-  - destruct (anchored h bs g) as [[h1 g1]|] eqn:EP; [|discriminate]. inversion E; subst h1 g1 x.
-    destruct (anchored_refines _ _ _ _ _ _ I Rs EP) as (_ & m & R'). eapply produced_clean; eauto.
-    intros ->. cbn in EP. inversion EP. now destruct g.
-  - destruct (register_patch h p g) as [[[h1 g1] b]|] eqn:EP; [|discriminate]. inversion E; subst h1 g1 x.
-    destruct (register_refines _ _ _ _ _ _ _ I Rs EP) as (_ & m & R' & _).
-    destruct p as [|p0 pr] eqn:Ep; [cbn in EP; inversion EP; now subst|].
-    intros Hsl. exfalso. revert Hsl. eapply related_nonempty; [exact R'|].
-    unfold Pipe.register. cbn [fst Pipe.slices].
-    pose proof (PipeProofs2.push_raw_length m (Pipe.marked (Pipe.logical (pipe_of h g) + length (p0 :: pr)) (p0 :: pr)) (Pipe.slices (pipe_of h g))) as (_ & H1).
-    intros Hnil. rewrite Hnil in H1. cbn in H1. lia.
-  - destruct (backfill h b src g) as [[h1 g1]|] eqn:EP; [|discriminate]. inversion E; subst h1 g1 x.
-    pose proof (proj_backfill _ _ _ _ _ _ EP) as Hp. unfold proj in Hp. inversion Hp as [[H1 H2]].
-    unfold drained_clean. intros Hnil. rewrite Hnil in H1. cbn in H1.
-    assert (gslices g = []) by (destruct (gslices g); [reflexivity|discriminate]).
-    specialize (J H). rewrite J in H2. cbn in H2. destruct (ganchors g'); [reflexivity|discriminate].
-  - destruct (consume k g) as [[g1 n]|] eqn:EP; [|discriminate]. inversion E; subst h' g1 x.
-    unfold consume in EP. destruct (stable_count g); [|discriminate]. eapply gd_consume_clean; eauto.
-  - destruct (advance_slices k g) as [[g1 c]|] eqn:EP; [|discriminate]. inversion E; subst h' g1 x. eapply advance_clean; eauto.
-  - destruct (pop_front g) as [g1|] eqn:EP; [|discriminate]. inversion E; subst h' g1 x.
-    unfold pop_front in EP. destruct (consume 1 g) as [[g2 n]|] eqn:EC; [|discriminate].
-    destruct n as [|[q|q|]]; try discriminate. inversion EP; subst g2.
-    unfold consume in EC. destruct (stable_count g); [|discriminate]. eapply gd_consume_clean; eauto.
-  - destruct (read h k g) as [[g1 bs]|] eqn:EP; [|discriminate]. inversion E; subst h' g1 x. eapply read_loop_clean; eauto.
-  - inversion E; subst h' g' x. unfold drained_clean. reflexivity.
-  - inversion E; subst h' g' x. exact J.
-  - destruct (ensure_capacity h (gcache_ g) k) as [[h1 k1]|]; [|discriminate]. inversion E; subst h1 g' x. exact J.
-  - destruct (nlen bs <=? count) eqn:Ec; [|discriminate]. apply N.leb_le in Ec.
-    destruct (anchored_n h bs count g) as [[h1 g1]|] eqn:EP; [|discriminate]. inversion E; subst h1 g1 x.
-    destruct (anchored_n_refines _ _ _ _ _ _ _ I Rs Ec EP) as (_ & m & R').
-    destruct bs as [|b0 bs0] eqn:Eb.
-    + (* nothing delivered: only the cache may move *)
-      unfold anchored_n in EP. destruct (arena_read_n h (gcache_ g) [] count) as [[[[hp kp] sp] ap]|] eqn:EA; [|discriminate].
-      assert (Hs : sl_len sp = 0).
-      { unfold arena_read_n in EA. destruct (count =? 0); [inversion EA; reflexivity|].
-        destruct (count <? nlen []); [discriminate|]. destruct (alloc_cache h (gcache_ g) count) as [[h1 k1]|]; [|discriminate].
-        inversion EA. reflexivity. }
-      rewrite Hs in EP. cbn in EP. inversion EP; subst h' g'. exact J.
-    + intros Hsl. exfalso. revert Hsl. eapply related_nonempty; [exact R'|]. apply pipe_push_nonempty. discriminate.
-Qed.
-
-Theorem g1run_clean ops : forall h g h' g' xs, GInv h g -> drained_clean g -> g1run h g ops = Some (h', g', xs) -> drained_clean g'.
-Proof.
-  induction ops as [|o ops IH]; intros h g h' g' xs I J E; cbn [g1run] in E.
-  - inversion E; now subst.
-  - destruct (g1step h g o) as [[[h1 g1] x]|] eqn:ES; [|discriminate].
-    destruct (g1run h1 g1 ops) as [[[h2 g2] xs2]|] eqn:ER; [|discriminate]. inversion E; subst h2 g2 xs.
-    destruct (g1step_refines h g (pipe_of h g) o h1 g1 x I (R_pipe_of h g) ES) as (I1 & _).
-    exact (IH h1 g1 h' g' xs2 I1 (g1step_clean h g o h1 g1 x I J ES) ER).
-Qed.
-
-(* the statement: a drained iovec holds at most the chunk of its allocation cache *)
-Theorem geo_drained_footprint ops h' g' xs :
-  g1run [] empty_iov ops = Some (h', g', xs) -> gslices g' = [] ->
+(* a consume call (of any count, zero included) that leaves no slice behind leaves no anchor *)
+Theorem consume_releases k g g' n : consume k g = Some (g', n) -> gslices g' = [] ->
   ganchors g' = [] /\ holders g' = match gcache_ g' with Some k => [kchunk k] | None => [] end.
 Proof.
-  intros E Hnil.
-  assert (H0 : heap_ok []) by (intros c Hc; cbn in Hc; lia).
-  assert (J : drained_clean g').
-  { eapply (g1run_clean ops [] empty_iov); [apply GInv_empty; exact H0|intros _; reflexivity|exact E]. }
-  specialize (J Hnil). split; [exact J|]. unfold holders. rewrite J. reflexivity.
+  intros E Hnil. unfold consume in E. destruct (stable_count g); [|discriminate].
+  pose proof (gd_consume_clean _ _ _ _ E Hnil) as J. split; [exact J|]. unfold holders. now rewrite J.
+Qed.
+
+Lemma total_zero l : Anchors.total l = 0%nat -> Forall (fun a => Anchors.acount a = 0%nat) l.
+Proof.
+  induction l as [|a l IH]; intros H; [constructor|]. rewrite Anchors.total_cons in H. constructor; [lia|apply IH; lia].
+Qed.
+
+(* in every reachable state without a buffered slice, the anchors that are left count no slice: they are the anchors of
+   anchored inputs that contributed nothing since the last consume call, which releases them *)
+Theorem geo_drained_footprint ops h' g' xs :
+  g1run [] empty_iov ops = Some (h', g', xs) -> gslices g' = [] -> Forall (fun a => acount a = 0) (ganchors g').
+Proof.
+  intros E Hnil. destruct (geo_ownership ops h' g' xs E) as (AI & _).
+  pose proof (Anchors.inv_total _ AI) as T. unfold proj in T. cbn [Anchors.slices Anchors.anchors] in T.
+  rewrite Hnil in T. cbn in T. apply total_zero in T. rewrite Forall_forall in *. intros a Ha.
+  specialize (T (panchor a) (in_map panchor _ _ Ha)). cbn [panchor Anchors.acount] in T. lia.
 Qed.
